@@ -61,6 +61,8 @@ CONSTANTS
     MaxAge,     \* "inf" : rrdp_delta_files_max_seconds so large nothing is old
                 \* "zero": every existing delta is old
                 \* "any" : some oldest deltas are old (environment's choice)
+    MaxNrEquality, \* TRUE: the number limit is tested as "keep == max_nr - 1"
+                \*   (as coded, rrdp.rs:440); FALSE: "keep >= max_nr - 1"
     MaxSerial,  \* model bound on serial
     MaxSession, \* model bound on session resets
     DeltaChoices \* the deltas the environment sends (subset of Deltas)
@@ -270,7 +272,8 @@ RECURSIVE AgeKeep(_, _, _, _)
 AgeKeep(i, keep, y, o) ==
     IF i > Len(deltas) THEN keep
     ELSE IF keep < MinNr \/ i <= y THEN AgeKeep(i + 1, keep + 1, y, o)
-    ELSE IF keep = MaxNr - 1 \/ i >= o THEN keep
+    ELSE IF (IF MaxNrEquality THEN keep = MaxNr - 1 ELSE keep >= MaxNr - 1)
+            \/ i >= o THEN keep
     ELSE AgeKeep(i + 1, keep + 1, y, o)
 
 \* deltas_truncate_size on a sequence D against snapshot size sz
